@@ -177,6 +177,12 @@ func (w *ssWorld) connect(o ssConnectOpts) bool {
 		var first []byte
 		if accepted.Reply != nil {
 			reply := append([]byte(nil), accepted.Reply...)
+			if o.tamperReply != 0 {
+				c.S.Count("fault.tamper-reply-field", 1)
+			}
+			if o.wrongSecret {
+				c.S.Count("fault.wrong-secret", 1)
+			}
 			switch o.tamperReply {
 			case 1:
 				reply[t.Draw("ty", 192)] ^= 1 << uint(t.Draw("tbit", 8))
@@ -209,6 +215,7 @@ func (w *ssWorld) connect(o ssConnectOpts) bool {
 			c.Info["reply_len"], c.Info["split_at"] = len(reply), s
 			if s < len(reply) {
 				c.Feature("reply-split")
+				c.S.Count("fault.reply-split", 1)
 				if s > len(reply)-32 {
 					c.Feature("reply-split-inside-mark-or-mac")
 				}
@@ -321,6 +328,7 @@ func (w *ssWorld) connect(o ssConnectOpts) bool {
 						tamperedAt = off
 						pkt[t.Draw("pflip", len(pkt))] ^= 1 << uint(t.Draw("pbit", 8))
 						c.Feature("packet-bit-flipped")
+						c.S.Count("fault.tamper-packet-bit", 1)
 					}
 					out = append(out, pkt...)
 					off += int64(k)
